@@ -109,6 +109,26 @@ CHECKS = {
              "the pool-slot clause (checked-out count back to zero at every call boundary).",
         technique="TLA+ contract monitor evaluated by TLC over recorded executions; exhaustive interruption-point enumeration",
         design_ref="4 C10", note=CONN_NOTE + " Interrupts are raised inside socket-module calls only."),
+    "C11": dict(
+        category="model_checking",
+        text="TLC explores the as-coded model of RendezvousHash (spec/Rendezvous.tla: node LIST, add/remove, the fold with its > / == / "
+             "max(str) branches) for every score assignment in 0..2 over 4 nodes (2-, 3- and 4-way ties) and every add/remove history up to 5 "
+             "(thorough 6) steps, against the contract monitor spec/RendezvousRule.tla (winner = highest score, ties to the greatest name; same "
+             "set => same placement; removal / addition move only the affected keys) and the direct lemma Fold(list) = Place(set); every exported "
+             "(score table, history) is replayed into the real class through hash_function=. With real murmur3 scores: node sets up to 8, every "
+             "permutation up to 5 (6) nodes, random add/remove histories, keys up to 250 bytes, two more interpreters with other PYTHONHASHSEEDs, "
+             "equivalent server spellings through HashClient, spread over corpora (short and 250-byte keys) -- every placement query is validated by TLC.",
+        technique="TLA+ model of the placement fold model-checked against the set-based rule (all score tables with forced ties); spec-to-code replay; TLC trace validation of real placements",
+        design_ref="4 C11", note=TRUST + " Keys are str; the hash function itself is C14's subject."),
+    "C14": dict(
+        category="model_checking",
+        text="spec/Murmur3.tla is MurmurHash3_x86_32 written in TLA+ over <<hi16, lo16>> words (8x16-bit partial products), pinned by 22 published "
+             "test vectors evaluated by TLC as ASSUMEs. pymemcache's murmur3_32 is evaluated on every string over {00,7F,80,FF} up to length 5 (6) "
+             "and over six symbols up to length 3 (4), every length 0..64 x 20 (120) random contents, long inputs across the 256-byte mark up to "
+             "4096 bytes, seeds {0, 1, 2^31, 2^32-1, random}; TLC recomputes every (input, seed, result) triple; strings above U+00FF are checked "
+             "for range and all vectors for equality in a second interpreter with a random PYTHONHASHSEED.",
+        technique="TLA+ transcription of the reference algorithm; TLC as independent evaluator of every recorded vector (trace validation)",
+        design_ref="4 C14", note=TRUST + " A transcribed pure function: TLC is an evaluator here, not an explorer; states = vectors evaluated."),
     "C17": dict(
         category="model_checking",
         text="TLC explores the as-coded model of RetryingClient.__init__/_retry (spec/Retrying.tla) against the contract "
